@@ -148,7 +148,9 @@ def analyse(run: Any) -> Dict[str, Any]:
 
 def one_line(arg: Any) -> Optional[str]:
     """None if the stderr text is a single newline-terminated line (as far as its constant parts say)."""
-    parts = list(arg.args) if isinstance(arg, Term) and arg.op == "fstr" else [arg] if isinstance(arg, Const) else None
+    from ..harness import str_parts
+
+    parts = str_parts(arg)
     if parts is None:
         return f"diagnostic is {describe(arg)!r}"
     consts = [p.value for p in parts if isinstance(p, Const)]
@@ -256,6 +258,10 @@ def check(model: Model, report: Report) -> None:
     from . import _oneline
 
     _oneline.check(model, report, "R20.7")
+    report.rule("R20.8", "nothing but a JSONPathError can come out of compile() or evaluation (the cells of C13 R13.2): any other exception would pass the CLI's handlers and be printed as a traceback")
+    from . import c13
+
+    c13.report_escapes(model, report, "R20.8", "can escape compile()/find(): the CLI has no handler for it and prints a traceback instead of a one-line diagnostic")
     report.assumptions += ["argparse behaviour and FileType handling are trusted", "json.load raises JSONDecodeError or UnicodeDecodeError for undecodable input (A1)"]
     report.not_decided += ["FileType('w') truncating the output file before validation; broken pipes; argparse errors"]
     fn = model.func("cli.handle_path_command")
